@@ -218,7 +218,10 @@ def judgeMapSeq (lim : Limits) (v : String) : List String :=
   | _ => []
 
 /-- an evaluation that returned normally although its program makes more code-less callbacks than the budget -/
-def judgeCallbacks (lim : Limits) : List String :=
+def judgeCallbacks (lim0 : Limits) (cost0 : Int) : List String :=
+  -- (against the budget the evaluation started with, when the obs line reports it: an `ev sizes set_limit` returns normally
+  -- under the old budget while the configured one is already the new, possibly clamped, value)
+  let lim : Limits := { lim0 with cost := if cost0 > 0 then cost0 else lim0.cost }
   -- (every callback costs a tick of its own: a normal return after at least as many callbacks as the budget has ticks is
   -- impossible; no allowance belongs here - the callbacks run before any error is delivered)
   (if lim.cost > 0 ∧ (lim.noCodeCallbacks : Int) ≥ lim.cost then
@@ -245,10 +248,12 @@ def judgeLine (s : JState) (line : String) : JState :=
     | none => s.flag [s!"malformed {line}"]
   | ["r", "ret", v] =>
     let s1 : JState := { s with pendingEv := s.pendingEv - 1, lastRet := true }
-    s1.flag (judgeMapSeq s.lim v ++ judgeCallbacks s.lim)
-  | "r" :: "ret" :: _ => ({ s with pendingEv := s.pendingEv - 1, lastRet := true } : JState).flag (judgeCallbacks s.lim)
+    s1.flag (judgeMapSeq s.lim v)
+  | "r" :: "ret" :: _ => { s with pendingEv := s.pendingEv - 1, lastRet := true }
   | "r" :: "err" :: _ => { s with pendingEv := s.pendingEv - 1, lastRet := false }
-  | "obs" :: rest => { s with lastRet := false }.flag (judgeObs s.lim s.lastRet rest)
+  | "obs" :: rest =>
+    { s with lastRet := false }.flag (judgeObs s.lim s.lastRet rest ++
+      (if s.lastRet then judgeCallbacks s.lim ((kvOf rest "cost0").getD 0) else []))
   | ["sz", "err"] => { s with pendingSz := s.pendingSz.drop 1 }
   | ["sz", "ok", n] =>
     match s.pendingSz, n.toInt? with
